@@ -381,6 +381,16 @@ func init() {
 		"fmt.Errorf": func(m *Machine, caller *frame, _ *ssa.Function, a []Value) Value {
 			return m.errorf(caller, a[0].(Str), a[1].(Slice).A)
 		},
+		"fmt.Fprintf": func(m *Machine, caller *frame, _ *ssa.Function, a []Value) Value {
+			s, _ := m.sprintfCore(caller, m.concStr(a[1], "format string"), a[2].(Slice).A)
+			return m.writeTo(caller, a[0], s)
+		},
+		"fmt.Fprint": func(m *Machine, caller *frame, _ *ssa.Function, a []Value) Value {
+			return m.writeTo(caller, a[0], m.sprint(caller, a[1].(Slice).A, false))
+		},
+		"fmt.Fprintln": func(m *Machine, caller *frame, _ *ssa.Function, a []Value) Value {
+			return m.writeTo(caller, a[0], m.strConcat(m.sprint(caller, a[1].(Slice).A, true), Str{S: "\n"}))
+		},
 		"fmt.Println": func(m *Machine, _ *frame, _ *ssa.Function, a []Value) Value {
 			return Tuple{m.mkInt(0), Iface{}}
 		},
@@ -914,4 +924,22 @@ func (m *Machine) mkError(msg string) Value {
 	}
 	m.abort("errors package not loaded")
 	return nil
+}
+
+// writeTo calls w.Write([]byte(s)) on an io.Writer held in an interface value.
+func (m *Machine) writeTo(caller *frame, w Value, s Str) Value {
+	iv, _ := w.(Iface)
+	if iv.T == nil {
+		m.throw("invalid memory address or nil pointer dereference")
+	}
+	f := m.lookupMethodByName(iv.T, "Write")
+	if f == nil {
+		m.abort("fmt.Fprint*: writer has no Write method")
+	}
+	bs := m.strBytes(s)
+	arr := make([]Value, len(bs))
+	for i, b := range bs {
+		arr[i] = b
+	}
+	return m.call(caller, f, []Value{iv.V, Slice{A: arr}})
 }
